@@ -8,9 +8,9 @@ Observations per case:
   1. the post-state document (identity classes renumbered) or the exception
      family + the post-state;
   2. the declarative expectation computed by the harness from a shadow copy of
-     the pre-state (wf flag, guard flag, document-order flag, expected document)
-     - compared with the extracted Coq spec (delete_spec / no_dup_no_disorder /
-     doc_ordered / wf_docb)."""
+     the pre-state (wf flag, every-coordinate-locates-a-node flag, expected
+     document) - compared with the extracted Coq spec (delete_spec /
+     del_all_located / wf_docb)."""
 import random
 
 import docenc
@@ -29,7 +29,8 @@ CONFIG = {
              "least one coordinate gathered; distinct = distinct (document, path)."),
     "trusted_base": [
         "modelled, not verified: yamlpath/processor.py delete_nodes/delete_gathered_nodes/_delete_nodes "
-        "(lines 685-812) on the gathered coordinates; the read side (_get_required_nodes) is NOT modelled: its "
+        "(lines 690-862, after fixes 17f9ea8 and 1c243db: _leaf_node_coords, root refusal while collecting, one entry per place, stable sort by descending list "
+        "position - Python's list.sort is modelled as an insertion sort) on the gathered coordinates; the read side (_get_required_nodes) is NOT modelled: its "
         "NodeCoords are captured from the real run and handed to the model",
         "the merge-key REMOVAL of _delete_nodes (`for (midx, merge_node) in parent.merge`) is outside the model; its "
         "entry test IS modelled (Anchors.scan_for_anchors + is_ymk_anchor + `len(parent.merge) > 0`, Mutate.del_step_mg): "
@@ -57,16 +58,16 @@ def family(e):
     return "(crash %s)" % type(e).__name__
 
 
-def del_order(ncs):
-    """Processing order of _delete_nodes: reversed, Collector results recursively."""
+def leaf_order(ncs):
+    """The innermost NodeCoords in gather order (Processor._leaf_node_coords, re-stated independently)."""
     NC = mutgen.init_env()["NodeCoords"]
     out = []
-    for nc in reversed(ncs):
+    for nc in ncs:
         node = nc.node
         if isinstance(node, list) and len(node) > 0 and isinstance(node[0], NC):
-            out.extend(del_order(node))
+            out.extend(leaf_order(node))
         elif isinstance(node, NC):
-            out.extend(del_order([node]))
+            out.extend(leaf_order([node]))
         else:
             out.append(nc)
     return out
@@ -124,7 +125,7 @@ def delete_record(p, path):
         return rec
     coords = state["top"]
     after = docenc.canon_doc_text(docenc.encode(p.data)[0])
-    order = del_order(coords)
+    order = leaf_order(coords)
     # YAML merge keys: the mappings whose .merge list was non-empty go to the model beside the document;
     # outside the model (skipped): a deletion inside a mapping other mappings merge in (ruamel propagates it to
     # the referring mappings), and the merge-key removal branch itself (parent has merge keys and parentref is
@@ -143,64 +144,48 @@ def delete_record(p, path):
     rec.update(kind="run", before=before, coords=coords, enc=enc, shadow=shadow, exc=exc, after=after,
                order=order, data=data,
                coords_sexp="(%s)" % " ".join(mutgen.coord_sexp(c, enc) for c in coords))
-    # declarative expectation from the shadow
+    # declarative expectation from the shadow: every coordinate that locates a node designates it, however
+    # often and in whatever order it was gathered (= C04spec.del_all_located / delete_spec)
     removed = set()
-    guard = True
+    located = True
     has_root = False
+    # shape of the gather, for the input distribution only: a node named twice / the positions of one sequence not
+    # strictly increasing in gather order / a negative index that is not the last of its parent (the cases the
+    # loop got wrong before fix 17f9ea8)
+    shape = set()
     T = {}
     for nc in order:
         if nc.parent is None:
             has_root = True
-            guard = False
+            located = False
             continue
         ent = shadow.kids.get(id(nc.parent))
         if ent is None:
+            located = False
             continue        # parent is not a container of the document
         idx = shadow.child_index(nc.parent, nc.parentref)
-        seen = T.setdefault(id(nc.parent), set())
-        kind = ent[0]
-        if kind == "S":
-            if idx is None:
-                if not (isinstance(nc.parentref, int) and not isinstance(nc.parentref, bool)
-                        and nc.parentref >= len(ent[1])):
-                    guard = False
-            else:
-                if any(k <= idx for k in seen):
-                    guard = False
-                if nc.parentref < 0 and seen:
-                    guard = False
-        elif kind == "T":
-            if idx is None or idx in seen:
-                guard = False
-        else:
-            if idx is not None and idx in seen:
-                guard = False
-        if idx is not None:
-            seen.add(idx)
-            removed.add((id(nc.parent), idx))
-    # "located, distinct, in document order within each parent" on the coordinates in GATHER order
-    # (= C04spec.doc_ordered, evaluated by the extracted Coq function on the same coordinates)
-    ordered = True
-    tg = []
-    for nc in reversed(order):
-        ent = shadow.kids.get(id(nc.parent)) if nc.parent is not None else None
-        idx = shadow.child_index(nc.parent, nc.parentref) if ent is not None else None
         if idx is None:
-            ordered = False
-            break
-        neg = (ent[0] == "S" and isinstance(nc.parentref, int) and not isinstance(nc.parentref, bool)
-               and nc.parentref < 0)
-        tg.append((id(nc.parent), idx, neg))
-    if ordered:
-        for a in range(len(tg)):
-            for b in range(a + 1, len(tg)):
-                if tg[a][0] == tg[b][0] and not (tg[a][1] < tg[b][1] and not tg[a][2]):
-                    ordered = False
-    rec["ordered"] = ordered
+            located = False
+            continue
+        seen = T.setdefault(id(nc.parent), [])
+        if idx in seen:
+            shape.add("dup")
+        elif ent[0] == "S":
+            if any(k > idx for k in seen):
+                shape.add("disorder")
+            if seen and seen[-1] < 0:
+                shape.add("disorder")
+        if ent[0] == "S" and isinstance(nc.parentref, int) and nc.parentref < 0:
+            seen.append(idx)
+            seen.append(-1)
+        else:
+            seen.append(idx)
+        removed.add((id(nc.parent), idx))
+    rec["shape"] = shape
     wf = tree_containers_unique(data, shadow)
     expected = docenc.canon_doc_text(mutgen.ShadowEncoder(shadow, removed).node(data))
-    rec.update(guard=guard, wf=wf, expected=expected, has_root=has_root, removed=removed,
-               root_first=bool(order) and order[0].parent is None)
+    rec.update(located=located, wf=wf, expected=expected, has_root=has_root, removed=removed,
+               root_only=all(nc.parent is None for nc in order))
     return rec
 
 
@@ -239,8 +224,7 @@ def observe(case):
         first = "(done %s)" % rec["after"]
     else:
         first = "(failed %s %s)" % (family(rec["exc"]), rec["after"])
-    second = "(%s %s %s %s)" % ("true" if rec["wf"] else "false", "true" if rec["guard"] else "false",
-                                "true" if rec["ordered"] else "false", rec["expected"])
+    second = "(%s %s %s)" % ("true" if rec["wf"] else "false", "true" if rec["located"] else "false", rec["expected"])
     return [first, second]
 
 
@@ -297,8 +281,9 @@ def classify(case, obs):
         pk = "exact"
     n = len(rec["order"])
     out = "done" if rec["exc"] is None else "raise"
-    flags = (("" if rec["guard"] else ":unguarded") + ("" if rec["ordered"] else ":unordered")
-             + (":unlocated" if unlocated(rec) else ""))
+    if rec["has_root"] and not rec["root_only"]:
+        out += ":rootmix"
+    flags = ("".join(":" + x for x in sorted(rec["shape"])) + (":unlocated" if unlocated(rec) else ""))
     return "%s:n=%s:%s%s" % (pk, n if n < 4 else "4+", out, flags)
 
 
@@ -318,26 +303,25 @@ def undescribe(d):
     return (d["doc"], d["path"])
 
 
-def _f15(case, obs):
-    rec = run_case(case)
-    return rec["kind"] == "run" and not rec["has_root"] and not rec["guard"]
-
-
-def _rootmix(case, obs):
-    rec = run_case(case)
-    return rec["kind"] == "run" and rec["has_root"] and not rec["root_first"]
-
-
-FINDING_PREDS = {"dup_or_disordered_coords": _f15, "root_among_other_matches": _rootmix}
+FINDING_PREDS = {}      # F15 (fix 17f9ea8) and F15b (fix 1c243db) are repaired: every located gather is judged
 
 CORPUS = [
     ("{a: [1, 2, 3]}", "(a[0])+(a[0])"),
     ("{a: [1, 2, 3, 4]}", "(a[2])+(a[0])"),
     ("{a: [[1], [2]], b: 1}", "(/)+(b)"),
     ("{a: [[1], [2]], b: 1}", "(b)+(/)"),
+    ("{a: [[1], [2]], b: 1}", "(a[0])+((b)+(/))+(a[1])"),
     ("[[], 1]", "[0]"),
     ("{a: {b: 1, c: []}}", "a.*"),
     ("[1, 2, 3]", "[-1]"),
+    # former finding F15 (fixed 17f9ea8): duplicates, disorder, negative before positive, a slice and one of its elements
+    ("{a: [1, 2, 3, 4]}", "(a[-1])+(a[0])"),
+    ("{a: [1, 2, 3, 4]}", "(a[0])+(a[-1])+(a[3])"),
+    ("{a: [1, 2, 3, 4, 5]}", "(a[1:3])+(a[0])+(a[2])"),
+    ("{s: !!set {x, y}}", "(s.x)+(s.x)"),
+    ("{a: {b: 1, c: 2}}", "(a.b)+(a.c)+(a.b)"),
+    ("{a: [[1, 2], 3]}", "(a[0][1])+(a[0])+(a[0][0])"),
+    ("{a: aa, c: 1}", "**[.^a]"),
     ("{a: 1}", "/"),
     ("{a: [1, [2], 3], b: 5}", "**"),
     ("{s: !!set {x, y}, t: 1}", "s.x"),
